@@ -25,6 +25,8 @@ type FaultSet struct {
 	GoSilent          bool // from this packet on the broker never answers on this connection again (link stays up)
 	WriteErrTransient bool // packet lost, write returns an error (e.g. a write deadline), link stays up
 	Stall             bool // from this packet on the peer stops reading: this and every later Write blocks until the client closes the transport (link stays up, nothing is answered)
+	// StallTypes restricts Stall to these packet types (nil = every packet but CONNECT).
+	StallTypes map[byte]bool
 	// OnlyTypes restricts faults to these packet types (nil = every client->broker packet).
 	OnlyTypes map[byte]bool
 }
@@ -188,7 +190,7 @@ func (b *Broker) faultsFor(p *Packet) []int {
 	if f.WriteErrTransient && p.Type != CONNECT {
 		alts = append(alts, fWriteErrTransient)
 	}
-	if f.Stall && p.Type != CONNECT {
+	if f.Stall && p.Type != CONNECT && (f.StallTypes == nil || f.StallTypes[p.Type]) {
 		alts = append(alts, fStall)
 	}
 	if p.Type == CONNECT {
